@@ -2,7 +2,7 @@
 import vlib, gen_conv, docs, e2e
 from vlib import hx, unhx, case_line, show
 
-THEOREMS = ["C16_tables", "C16_reject", "C16_reject_quadlet", "C16_error_names_key", "C16_accept"]
+THEOREMS = ["C16_tables", "C16_reject", "C16_reject_quadlet", "C16_error_names_key", "C16_accept", "C16_reject_in_the_run_with_dropins", "C16_dropin_unknown_key_example"]
 
 
 def inventory(ctx):
